@@ -519,17 +519,17 @@ def run_scenario(seed, script, collect):
     # optional probes on private state
     try:
         snap["found"] = sorted((repr(a), repr(s)) for a, d in prot.discovery.found_services.store.items() for s in d)
-    except AttributeError:
+    except Exception:
         snap["found"] = None
     try:
         snap["subs"] = sorted((repr(a), repr(s)) for i in prot.announcer.announcing_services
                               for a, d in i.subscriptions.store.items() for s in d)
-    except AttributeError:
+    except Exception:
         snap["subs"] = None
     try:
         snap["incoming"] = dict(prot.session_storage.incoming)
         snap["outgoing"] = dict(prot.session_storage.outgoing)
-    except AttributeError:
+    except Exception:
         snap["incoming"] = snap["outgoing"] = None
     problems = [p for p in h.problems() if p[0] != "logged_exception"]
     h.close()
